@@ -3,6 +3,9 @@ package harness
 import (
 	"fmt"
 	"sort"
+	"time"
+
+	"github.com/anishathalye/porcupine"
 
 	"github.com/glebziz/fs_db/internal/verif/simrt"
 )
@@ -22,14 +25,14 @@ type wEvent struct {
 }
 
 type txInfo struct {
-	slot      int
-	level     int
-	begin     *HEvent
-	commit    *HEvent
-	rollback  *HEvent
-	last      map[string]uint64 // key -> id of the last write (0 = delete)
-	wrote     map[string]bool
-	allIDs    map[uint64]bool
+	slot     int
+	level    int
+	begin    *HEvent
+	commit   *HEvent
+	rollback *HEvent
+	last     map[string]uint64 // key -> id of the last write (0 = delete)
+	wrote    map[string]bool
+	allIDs   map[uint64]bool
 }
 
 func analyse(cr *concRun) (txs map[int]*txInfo, events map[string][]wEvent, owner map[uint64]int) {
@@ -144,6 +147,16 @@ func genC07(r *simrt.Rand, idx int, tier string) ConcCase {
 			id++
 			ops = append(ops, Op{K: "set", Key: key, ID: id, Size: smallSize(r)})
 		}
+		c.Clients = append(c.Clients, ops)
+	}
+	if r.Intn(3) == 0 {
+		// a snapshot transaction that begins while the others are committing: reads the hot key,
+		// writes it, commits (judged by the linearizability fallback: its Begin either precedes a
+		// commit - then its own Commit must fail - or follows it - then it must read the new value)
+		tx := nt + 1
+		ops := []Op{{K: "yield", N: r.Intn(120)}, {K: "begin", Tx: tx, Level: 2 + r.Intn(2)}, {K: "get", Tx: tx, Key: hot}}
+		id++
+		ops = append(ops, Op{K: "set", Tx: tx, Key: hot, ID: id, Size: smallSize(r)}, Op{K: "commit", Tx: tx})
 		c.Clients = append(c.Clients, ops)
 	}
 	if r.Intn(4) == 0 {
@@ -285,7 +298,7 @@ func checkC07(c ConcCase, cr *concRun, out *RunOut) *Violation {
 			}
 		}
 	}
-	return nil
+	return linFallback("C07", cr, out)
 }
 
 func lastClientRet(cr *concRun) uint64 {
@@ -508,6 +521,28 @@ func checkC08(c ConcCase, cr *concRun, out *RunOut) *Violation {
 						s, bc, br, g, o.commit.Call, o.commit.Ret, sawKey, oldKey, old.ID, old.End)}
 			}
 		}
+	}
+	return linFallback("C08", cr, out)
+}
+
+// linFallback: after the interval rules, the whole history (snapshot transactions included) is
+// checked for a linearization against the reference model: Begin, every read and Commit take
+// effect atomically at some instant between call and return. The interval rules give the
+// precise class; this catches what they do not name.
+func linFallback(prop string, cr *concRun, out *RunOut) *Violation {
+	if len(cr.hist) > 40 {
+		out.Probes["lin-fallback-skipped-long-history"]++
+		return nil
+	}
+	ops := make([]porcupine.Operation, 0, len(cr.hist))
+	for _, e := range cr.hist {
+		ops = append(ops, porcupine.Operation{ClientId: e.Client, Input: e.Op, Call: int64(e.Call), Output: e, Return: int64(e.Ret)})
+	}
+	switch porcupine.CheckOperationsTimeout(linModel, ops, 2*time.Second) {
+	case porcupine.Illegal:
+		return &Violation{Class: "lin-illegal", Signature: prop + "|lin-illegal", Detail: "the recorded history (snapshot transactions included) has no linearization consistent with the reference model"}
+	case porcupine.Unknown:
+		out.Inconclusive = "porcupine-timeout"
 	}
 	return nil
 }
